@@ -450,6 +450,28 @@ func writeEvidence(e *Engine, path, prop, tier string, pc *PropConfig, results [
 	for a := range assum {
 		standing = append(standing, a)
 	}
+	if len(e.cf.Stable) > 0 {
+		standing = append(standing, "declared stable under unknown code (callbacks, interface methods, abstracted callees): "+strings.Join(e.cf.Stable, ", "))
+	}
+	if len(e.cf.NonNil) > 0 {
+		standing = append(standing, "object invariants 'never nil' (assumed at loads; proved at every store and constructor exit under the properties whose functions write them): "+strings.Join(sortedKeys(e.cf.NonNil), ", "))
+	}
+	var open []string
+	for _, r := range results {
+		k := r.Key
+		if i := strings.Index(k, "@"); i > 0 {
+			k = k[:i]
+		}
+		if ct := e.cf.Funcs[k]; ct != nil {
+			for _, cl := range ct.Clauses {
+				for _, p := range cl.Props {
+					if p == "OPEN" {
+						open = append(open, fmt.Sprintf("%s: %s %s", k, cl.Kind, cl.Text))
+					}
+				}
+			}
+		}
+	}
 	sort.Strings(standing[8:])
 	level := "proof"
 	cov := map[string]interface{}{
@@ -469,6 +491,7 @@ func writeEvidence(e *Engine, path, prop, tier string, pc *PropConfig, results [
 		"undischarged":                       failedIDs,
 		"undecided":                          undecided,
 		"bounded_functions":                  []string{},
+		"open_obligations_not_claimed":       open,
 		"explanation":                        pc.Text,
 		"not_decided":                        pc.NotDecided,
 		"package_load_seconds":               round2(e.loadSeconds),
